@@ -183,4 +183,7 @@ def random_password(rng, with_dotted_i=False):
     frags = FRAGMENTS + (['İ', 'İ.com', 'aİb'] if with_dotted_i else [])
     n = rng.randint(1, 4)
     pw = ''.join(rng.choice(frags) for _ in range(n))
+    if rng.random() < 0.05:
+        k = rng.choice(['1qaz', 'zaq1', 'qwer12', '1q2w', 'йцук12'])
+        pw = k + rng.choice(['', '!', 'x', '12']) + k + rng.choice(['', '!', 'xy'])       # the same walk twice; one trailing character
     return pw[:21] if len(pw) > 21 else pw
